@@ -7,7 +7,7 @@ import re
 import vlib
 
 SIG_PROPS = {"burst-incomplete": {"C05"}, "relay-closed-a-reading-connection": {"C05", "C06"}, "deny-lapsed-before-expiry": {"C07", "C10"},
-             "deny-not-accepted": {"C07", "C09", "C10", "C11"}, "status-not-membership": {"C14"}, "shutdown-hung": {"C13"},
+             "deny-not-accepted": {"C07", "C09", "C10", "C11"}, "status-not-membership": {"C14"}, "shutdown-hung": {"C13"}, "goroutines-left-after-shutdown": {"C13"},
              "relay-crash-or-hang": {"C05", "C06", "C07", "C08", "C10", "C13", "C14"}, "bad-output": {"C05", "C06", "C07", "C13", "C14"}}
 RELAYMAIN_RULE = (" mode relaymain (oracle only, real clock): `relay.Relay` started with buffer size 0 / 1 / 128 / 600 (the out-of-range values are "
                   "replaced by the default) and prune interval 0.4-1 s: a 100-frame back-to-back burst to a reading connection, a deny expiring 3-5 s later (more than two prune "
@@ -65,8 +65,14 @@ class RelayMainMode(vlib.Mode):
                           f"{m.group(4)} (refused {m.group(2)} of {m.group(3)} polls; still listed: {m.group(5)})"))
         if parts[2] != "status swap=ok":
             fails.append(("status-not-membership", f"{case[0]}: one reporting interval after a connection was replaced by another, GET /status said: {parts[2]}"))
-        if parts[3] != "shutdown=ok":
+        m = re.match(r"shutdown=(\w+) left=(-?\d+)", parts[3])
+        if not m: return [("bad-output", parts[3])]
+        if m.group(1) != "ok":
             fails.append(("shutdown-hung", f"{case[0]}: relay.Relay did not return within 8 s of shutdown"))
+        elif int(m.group(2)) > 6:
+            # 3-4 goroutines live as long as the process on the unchanged tree (hub loop, code-store sweeper, signal handler)
+            fails.append(("goroutines-left-after-shutdown", f"{case[0]}: {m.group(2)} goroutines more than before the relay was started are still alive 4 s after "
+                          "shutdown with two connections open (the process-lifetime ones account for 3-4)"))
         return fails
 
     def nontrivial(self, case, out):
